@@ -197,6 +197,23 @@ def _relations(draw, ctx):
             notes = sorted(set(notes) | {reps * span + 1, reps * span + 2})
     if draw(st.integers(0, 9)) == 0:
         phrases = []            # a track with notes and no phrase at all
+    if draw(st.integers(0, 9)) == 0:
+        # a phrase LONGER than a machine integer / the exact range of a float (lengths are plain integers:
+        # the half-open rule has to hold at the last covered tick and the first uncovered one)
+        big = draw(st.sampled_from([2 ** 53 + 1, 2 ** 53 + 2, 2 ** 54 + 10, 10 ** 17 + 1, 2 ** 62 + 1, 2 ** 63 + 5,
+                                    2 ** 64 + 3, 10 ** 19 + 7, 2 ** 31 + 1, 2 ** 32 + 1]))
+        s0 = draw(st.sampled_from([0, 1, 96, 2 ** 32 + 5, 2 ** 53 + 3]))
+        before = [p for p in phrases if p[0] + p[1] <= s0 and p[0] <= s0][:3]
+        phrases = before + [[s0, big]]
+        if draw(st.booleans()):
+            phrases.append([s0 + big - draw(st.sampled_from([0, 1, 2, 5])), draw(st.sampled_from([0, 1, 3, 96]))])
+        if draw(st.integers(0, 3)) == 0:
+            phrases.append([s0 + big + 10, big])
+        notes = sorted({t for t in notes if t < s0} | {s0 + d for d in draw(st.sets(st.sampled_from(
+            [0, 1, 2, big // 2, big - 3, big - 2, big - 1, big, big + 1, big + 2, big + 9, big + 10, big + 11,
+             2 * big + 9, 2 * big + 10]), min_size=2))})
+        return {"phrases": phrases, "notes": notes, "res": draw(st.sampled_from([960, 10 ** 6])), "tempo": [[0, 10 ** 9]],
+                "fmt": 0}
     if draw(st.integers(0, 7)) == 0:
         # everything moved up across the width of a machine integer, one fastest tempo
         off = draw(st.sampled_from(G.BIG_OFFSETS_32 + G.BIG_OFFSETS_64))
